@@ -604,13 +604,27 @@ func (p *pgen) stmt(c genCtx) []*Stmt {
 		// temporary tables: declared in this block, changed and read from any depth below it
 		t := p.g.Intn(poolTables)
 		vis := sortedKeys(c.tvisible)
-		if len(vis) == 0 || p.g.Intn(4) == 0 {
+		if len(vis) == 0 && p.g.Intn(2) == 0 {
+			break
+		}
+		if len(vis) == 0 || p.g.Intn(10) == 0 {
 			for k := 0; k < 3 && c.tvisible[t] && p.g.Intn(100) < 92; k++ { // a visible name cannot be declared again
 				t = p.g.Intn(poolTables)
 			}
 			c.tvisible[t] = true
 			p.note('V', c)
-			return []*Stmt{{K: 'V', X: t}}
+			st := []*Stmt{{K: 'V', X: t}}
+			if !deep && c.depth > 0 && p.g.Intn(2) == 0 {
+				// declared in an intermediate block, changed one or two blocks further in, read back here
+				ch := []*Stmt{{K: 'N', X: t, Rows: 1 + p.g.Intn(3)}}
+				p.note('N', c)
+				if p.g.Intn(2) == 0 {
+					ch = []*Stmt{{K: 'I', AsCase: p.g.Intn(3) == 0, Branches: []Branch{{C: p.cond(c), Body: append(p.block(c.child().child(), 0, 1), ch...)}}}}
+				}
+				st = append(st, &Stmt{K: 'I', AsCase: p.g.Intn(3) == 0, Branches: []Branch{{C: &Expr{K: 't'}, Body: append(p.block(c.child(), 0, 1), ch...)}}},
+					&Stmt{K: 'P', E: &Expr{K: 'T', X: t}})
+			}
+			return st
 		}
 		if p.g.Intn(100) < 94 {
 			t = vis[p.g.Intn(len(vis))]
@@ -619,10 +633,10 @@ func (p *pgen) stmt(c genCtx) []*Stmt {
 		case q < 12:
 			p.note('N', c)
 			return []*Stmt{{K: 'N', X: t, Rows: 1 + p.g.Intn(3)}}
-		case q < 15:
+		case q < 14:
 			p.note('L', c)
 			return []*Stmt{{K: 'L', X: t}}
-		case q < 16 && !c.noDisp:
+		case q < 15 && !c.noDisp:
 			delete(c.tvisible, t)
 			p.note('U', c)
 			return []*Stmt{{K: 'U', X: t}}
